@@ -71,8 +71,10 @@ package hamt
 //@ assigns nothing
 
 //@ func hamt.validateHAMTData
+//@ prop C02 C03 C14
 //@ ensures err == nil ==> wfData(nd)
 //@ ensures only-a-shard-typed-message-is-a-shard: err == nil ==> nd.DataType.x == 5
+//@ ensures every-well-formed-shard-message-is-accepted: nd.DataType.x == 5 && nd.HashType.m == 2 && uint64(nd.HashType.v.x) == 34 && nd.Data.m == 2 && nd.Fanout.m == 2 && int(nd.Fanout.v.x) > 0 && (int(nd.Fanout.v.x) & (int(nd.Fanout.v.x) - 1)) == 0 ==> err == nil
 //@ assigns nothing
 
 //@ func hamt.log2Size
